@@ -8,26 +8,28 @@ Arguments propagate : simpl never.
 
 (* ------------------------------------------------------------------ Value.setValue vs. pack *)
 
-Lemma accum_from_list : forall r l0, accum_from (PList l0) r = PList (l0 ++ r).
+Lemma accum_from_coll : forall r l0, accum_from (PList l0, true) r = (PList (l0 ++ r), true).
 Proof.
   induction r as [|x r IH]; intros l0; simpl.
   - now rewrite app_nil_r.
   - rewrite IH. now rewrite <- app_assoc.
 Qed.
 
-(* a fresh Value that receives the (non-None) results l holds pack l, provided the first result is not
-   itself a list *)
-Lemma accum_pack : forall l,
-  (match l with x :: _ :: _ => is_list x = false /\ is_none x = false | _ => True end) -> accum l = pack l.
+(* a fresh Value that receives the non-None results l holds pack l and is collecting iff there are several:
+   a single result is stored as such (also when it is a list), several as the list of them in order *)
+Lemma accum_from_pack : forall l, Forall (fun x => is_none x = false) l ->
+  accum_from (PNone, false) l = (pack l, match l with _ :: _ :: _ => true | _ => false end).
 Proof.
   intros [|x [|y r]] H; try reflexivity.
-  unfold accum. simpl. destruct H as (H1 & H2).
-  destruct x; simpl in *; try discriminate; now rewrite accum_from_list.
+  inversion H; subst.
+  change (accum_from (PNone, false) (x :: y :: r)) with (accum_from (set_slot (x, false) y) r).
+  assert (E : set_slot (x, false) y = (PList [x; y], true))
+    by (destruct x; try discriminate; reflexivity).
+  rewrite E, accum_from_coll. reflexivity.
 Qed.
 
-(* ... and merges them into that list otherwise *)
-Lemma accum_merged : forall l0 y r, accum (PList l0 :: y :: r) = PList (l0 ++ y :: r).
-Proof. intros. unfold accum. simpl. rewrite accum_from_list. now rewrite <- app_assoc. Qed.
+Lemma accum_pack : forall l, Forall (fun x => is_none x = false) l -> accum l = pack l.
+Proof. intros l H. unfold accum. now rewrite accum_from_pack. Qed.
 
 (* ------------------------------------------------------------------ basics *)
 
@@ -231,7 +233,7 @@ Qed.
 
 Definition nonempty {A} (l : list A) : bool := match l with [] => false | _ => true end.
 
-Lemma accum_from_app : forall l1 l2 c,
+Lemma accum_from_app : forall l1 l2 (c : pyval * bool),
   accum_from c (l1 ++ l2) = accum_from (accum_from c l1) l2.
 Proof. induction l1 as [|x l1 IH]; intros; simpl; auto. Qed.
 
@@ -290,7 +292,7 @@ Qed.
 (* the Value of event e, its errors flag and the feedback events fired about e agree with the
    handler activity recorded in the log *)
 Record VC (s : st) (e : nat) : Prop := {
-  vc_val : vv (val s e) = accum (produced (spec s) e (log s));
+  vc_val : (vv (val s e), vcoll (val s e)) = accum_from (PNone, false) (produced (spec s) e (log s));
   vc_res : vresult (val s e) = nonempty (produced (spec s) e (log s));
   vc_err : verrors (val s e) = (0 <? nraised (spec s) e (log s));
   vc_exc : count_der DExc e (log s) = nraised (spec s) e (log s);
@@ -299,7 +301,7 @@ Record VC (s : st) (e : nat) : Prop := {
 
 Lemma VC_step : forall s s' e l,
   VC s e -> spec s' e = spec s e -> log s' = l ++ log s ->
-  vv (val s' e) = accum_from (vv (val s e)) (produced (spec s) e l) ->
+  (vv (val s' e), vcoll (val s' e)) = accum_from (vv (val s e), vcoll (val s e)) (produced (spec s) e l) ->
   vresult (val s' e) = vresult (val s e) || nonempty (produced (spec s) e l) ->
   verrors (val s' e) = verrors (val s e) || (0 <? nraised (spec s) e l) ->
   count_der DExc e l = nraised (spec s) e l ->
@@ -312,7 +314,7 @@ Proof.
   assert (Hn : nraised (spec s') e (log s') = nraised (spec s) e l + nraised (spec s) e (log s)).
   { rewrite Hlog, (nraised_sp (spec s) (spec s')) by auto. apply nraised_app. }
   split.
-  - rewrite Hp, H1. unfold accum. rewrite accum_from_app. fold (accum (produced (spec s) e (log s))). now rewrite v1.
+  - rewrite Hp, H1, accum_from_app. now rewrite v1.
   - rewrite Hp, H2, nonempty_app. now rewrite v2.
   - rewrite Hn, H3, v3.
     destruct (nraised (spec s) e l), (nraised (spec s) e (log s)); simpl; auto.
@@ -428,10 +430,10 @@ Proof.
 Qed.
 
 Definition setv (v : value) (x : pyval) : value :=
-  {| vv := set_py (vv v) x; vresult := vresult v || negb (is_none x);
-     verrors := verrors v; vpromise := vpromise v |}.
+  {| vv := fst (set_slot (vv v, vcoll v) x); vcoll := snd (set_slot (vv v, vcoll v) x);
+     vresult := vresult v || negb (is_none x); verrors := verrors v; vpromise := vpromise v |}.
 Definition seterr (v : value) : value :=
-  {| vv := vv v; vresult := vresult v; verrors := true; vpromise := vpromise v |}.
+  {| vv := vv v; vcoll := vcoll v; vresult := vresult v; verrors := true; vpromise := vpromise v |}.
 
 Lemma inform_vop : forall f e s, e < next s ->
   exists li, vop e li s (inform f e s) /\ (li = [] \/ li = [LFD DVC e]) /\ val (inform f e s) e = val s e.
@@ -596,7 +598,7 @@ Proof.
         eapply VC_step with (l := (li ++ lk) ++ [LH e i]); eauto.
         -- apply (fr_spec _ _ _ _ e (v_fr _ _ _ _ Hvt) He).
         -- apply (f_log _ _ _ _ (v_fr _ _ _ _ Hvt)).
-        -- rewrite a, Hc, Hval2, Hval1. unfold nonnone. rewrite Hnone. reflexivity.
+        -- rewrite a, Hc, Hval2, Hval1. unfold nonnone. rewrite Hnone. simpl. symmetry. apply surjective_pairing.
         -- rewrite a, Hc, Hval2, Hval1. unfold nonnone. rewrite Hnone. simpl. now rewrite Hnone.
         -- rewrite b, Hr, Hval2, Hval1. simpl. now rewrite orb_false_r.
         -- rewrite b, Hr, !count_der_app, Hlk3, q4. reflexivity.
@@ -635,7 +637,7 @@ Proof.
       eapply VC_step; eauto.
       * apply (fr_spec _ _ _ _ e (v_fr _ _ _ _ Hvt) He).
       * apply (f_log _ _ _ _ (v_fr _ _ _ _ Hvt)).
-      * rewrite a, Hc, Hval5, Hval4. reflexivity.
+      * rewrite a, Hc, Hval5, Hval4. simpl. symmetry. apply surjective_pairing.
       * rewrite a, Hc, Hval5, Hval4. reflexivity.
       * rewrite b, Hr, Hval5, Hval4. simpl. now rewrite orb_true_r.
       * rewrite b, Hr, !count_der_app, Hlk3, q4, b4. reflexivity.
@@ -683,9 +685,10 @@ Qed.
 
 Lemma VC_same : forall s s' e,
   spec s' e = spec s e -> log s' = log s -> vv (val s' e) = vv (val s e) ->
+  vcoll (val s' e) = vcoll (val s e) ->
   vresult (val s' e) = vresult (val s e) -> verrors (val s' e) = verrors (val s e) -> VC s e -> VC s' e.
 Proof.
-  intros s s' e Hsp Hl H1 H2 H3 [v1 v2 v3 v4 v5]. split; rewrite ?Hl, ?H1, ?H2, ?H3, ?Hsp; auto;
+  intros s s' e Hsp Hl H1 H1c H2 H3 [v1 v2 v3 v4 v5]. split; rewrite ?Hl, ?H1, ?H1c, ?H2, ?H3, ?Hsp; auto;
     rewrite ?(produced_sp (spec s) (spec s')), ?(nraised_sp (spec s) (spec s')); auto.
 Qed.
 
@@ -1136,7 +1139,7 @@ Proof.
     eapply VC_step with (l := (li ++ lk) ++ [LG e i k]); eauto.
     + apply (fr_spec _ _ _ _ e (v_fr _ _ _ _ Hvt) He).
     + apply (f_log _ _ _ _ (v_fr _ _ _ _ Hvt)).
-    + rewrite a, Hc, Hval2, Hval1. unfold nonnone. rewrite Hnone. reflexivity.
+    + rewrite a, Hc, Hval2, Hval1. unfold nonnone. rewrite Hnone. simpl. symmetry. apply surjective_pairing.
     + rewrite a, Hc, Hval2, Hval1. unfold nonnone. rewrite Hnone. simpl. now rewrite Hnone.
     + rewrite b, Hr, Hval2, Hval1. simpl. now rewrite orb_false_r.
     + rewrite b, Hr, !count_der_app, Hlk3, q4. reflexivity.
@@ -1332,7 +1335,7 @@ Proof.
         eapply VC_step with (l := A ++ [LG e (thd t) (tk t)]); eauto.
         - apply (fr_spec _ _ _ _ e Fa He).
         - apply (f_log _ _ _ _ Fa).
-        - rewrite a, Hc, Hval9, Hval8. reflexivity.
+        - rewrite a, Hc, Hval9, Hval8. simpl. symmetry. apply surjective_pairing.
         - rewrite a, Hc, Hval9, Hval8. reflexivity.
         - rewrite b, Hr, Hval9, Hval8. simpl. now rewrite orb_true_r.
         - rewrite b, Hr. unfold A. rewrite !count_der_app, Hlk3, p4, q4, b4. reflexivity.
@@ -1587,15 +1590,19 @@ Theorem value_tracks : forall s e, reachable_plain s -> e < next s ->
   vv (val s e) = accum (produced (spec s) e (log s)) /\
   vresult (val s e) = nonempty (produced (spec s) e (log s)) /\
   verrors (val s e) = (0 <? nraised (spec s) e (log s)).
-Proof. intros s e Hr He. destruct (i_vc _ _ (reachable_inv s Hr) e He). auto. Qed.
-
-Theorem value_packed : forall s e, reachable_plain s -> e < next s ->
-  (match produced (spec s) e (log s) with x :: _ :: _ => is_list x = false | _ => True end) ->
-  vv (val s e) = pack (produced (spec s) e (log s)).
 Proof.
-  intros s e Hr He H. destruct (value_tracks s e Hr He) as (-> & _). apply accum_pack.
-  pose proof (produced_no_none (spec s) e (log s)) as Hn.
-  destruct (produced (spec s) e (log s)) as [|x [|y r]]; auto. split; auto. now inversion Hn.
+  intros s e Hr He. destruct (i_vc _ _ (reachable_inv s Hr) e He) as [v1 v2 v3 _ _].
+  unfold accum. rewrite <- v1. auto.
+Qed.
+
+(* full strength: none / the single result stored as such (also when it is a list) / the list of the
+   results in production order; the Value is collecting iff there are several *)
+Theorem value_packed : forall s e, reachable_plain s -> e < next s ->
+  vv (val s e) = pack (produced (spec s) e (log s)) /\
+  vcoll (val s e) = (match produced (spec s) e (log s) with _ :: _ :: _ => true | _ => false end).
+Proof.
+  intros s e Hr He. destruct (i_vc _ _ (reachable_inv s Hr) e He) as [v1 _ _ _ _].
+  rewrite (accum_from_pack _ (produced_no_none (spec s) e (log s))) in v1. inversion v1. auto.
 Qed.
 
 (* one exception event per raise; one <name>_failure per raise iff failure feedback was requested *)
